@@ -136,6 +136,6 @@ def execute(case, ctx):
 
 MANIFEST = {
     "technique": "property-based testing (Hypothesis) with a differential oracle (numpy bosonic Lehmann sum) and a metamorphic relation for the disconnected part",
-    "text": "Seeded random search over models, operator quadruples, bosonic frequencies incl. 0, tau grid and the three subtraction overloads; values are compared with an independent reference incl. the static degenerate term, and the subtracted result with the unsubtracted one.",
+    "text": "Seeded random search over models, operator quadruples, bosonic frequencies incl. 0, tau grid and the three subtraction overloads (averages computed internally, given as numbers, given as fresh / already prepared / copied EnsembleAverage objects); values are compared with an independent reference incl. the static degenerate term, and the subtracted result with the unsubtracted one.",
     "note": "Trusted: numpy, pbt/oracle.py, the runner.",
 }
